@@ -44,6 +44,13 @@ SOUP = ["'", '"', "\\", "$", "`", ";", "|", "&", "<", ">", "(", ")", "*", "?", "
 METHODS = [b"GET", b"POST", b"PUT", b"DELETE", b"PATCH", b"HEAD", b"OPTIONS"]
 ODD_METHODS = [b"GE T", b"P'OST", b"$(id)", b"`id`", b";id", b"get", b"G\"ET", b"M\xc3\xa9T", b"A&B", b"X\\Y", b"P\nQ", b"%s", b"*"]
 HOSTS = [b"example.com", b"address", b"1.2.3.4", b"ex'ample.com", b"a b.com", b"$(id).com", b"xn--mnchen-3ya.de", b"h;id", b"::1", b"h\"q"]
+# host forms x ports: IPv6 literals (compressed, full, v4-mapped, loopback), IPv4, names, IDN (A-label / U-label), trailing dot
+NET_HOSTS = [b"2001:db8::1", b"2001:0db8:0000:0000:0000:0000:0000:0001", b"::ffff:1.2.3.4", b"::1", b"fe80::1", b"::",
+             b"192.0.2.7", b"example.com", b"example.com.", b"xn--mnchen-3ya.de", "münchen.de".encode(), b"localhost", b"a.b.c.d.example"]
+# what a Host header / :authority may carry for such a host
+def host_header_forms(host, port):
+    br = b"[" + host + b"]" if b":" in host else host
+    return [br, br + b":%d" % port, br + b":8443", host]
 PATHS = [b"/", b"/path?a=foo&a=bar&b=baz", b"/p ath", b"/it's", b"/$(id)", b"/`id`", b"/a;b|c&d", b"/%41%%", b"/back\\slash",
          b"/nl\nx", b"/tab\tx", b"/\xc3\xa9", b"/\xff\xfe", b"/*?[x]", b"/#frag", b"/~", b"/!bang", b"/{a,b}", b"/'\"'\"'", b"/<>", b"*", b""]
 HNAMES = [b"header", b"X-Custom", b"Accept", b"Accept-Encoding", b"accept-encoding", b"Host", b"host", b"Content-Length",
@@ -104,14 +111,16 @@ class Check(PropertyCheck):
                   "paths against a minimal reader written in the model; the strict Python reference parser judges the real bytes.")
     technique = "Lean 4 proof (induction over arguments/bytes) + execution of the real exports under real shells with stub programs"
     rule = ("requests with ~60% plain and ~40% hostile material (shell metacharacters, quotes, control characters, %, "
-            "backslashes, non-UTF-8 bytes; never NUL) in method, host, path, header names and values; bodies: none, text soups, "
+            "backslashes, non-UTF-8 bytes; never NUL) in method, host, path, header names and values; host forms x ports (IPv6 literals compressed/full/v4-mapped, "
+            "IPv4, names, IDN, trailing dot, with default and non-default ports; Host header / :authority / request.host as the "
+            "source, with and without brackets and ports); bodies: none, text soups, "
             "binary, non-UTF-8 charsets; export_preserve_original_ip on/off with several peer addresses; each case exports ONE flow "
             "object 2-3 times in a drawn format order (curl/httpie/raw, with repeats) - every export is judged, must leave "
             "the flow's get_state() unchanged and must equal the export of an identical request computed by a worker process on "
             "fresh state; ~45% of the cases first run a HISTORY in the checking process (other messages get .text assigned - also "
             "text their declared charset cannot encode - or read under Content-Type values the request under test then shares). distinct = distinct "
             "request; non-trivial = at least one field contains a character outside shlex's safe set.")
-    budget = {"quick": 150, "thorough": 12000}
+    budget = {"quick": 100, "thorough": 12000}
     time_budget = {"quick": 12, "thorough": 500}
     fingerprints = ["mitmproxy.addons.export:curl_command", "mitmproxy.addons.export:httpie_command",
                     "mitmproxy.addons.export:request_content_for_console", "mitmproxy.addons.export:pop_headers",
@@ -127,26 +136,34 @@ class Check(PropertyCheck):
     # ------------------------------------------------------------------ generation
     def generate(self, rng, tier):
         # the runner evaluates generated cases in batches of 256; a case costs 5-6 process creations (15-30 ms each on the
-        # shared box), so the quick tier draws a fixed 150 cases to stay well under a minute
+        # shared box), so the quick tier draws a fixed 100 cases to stay well under a minute
         drawn = 0
-        while tier != "quick" or drawn < 150:
+        while tier != "quick" or drawn < 100:
             drawn += 1
             hostile = rng.chance(0.4)
             method = rng.pick(ODD_METHODS) if hostile and rng.chance(0.3) else rng.pick(METHODS)
             host = rng.pick(HOSTS) if hostile else rng.pick(HOSTS[:3])
+            net = rng.chance(0.35)
+            if net: host = rng.pick(NET_HOSTS)
             path = rng.pick(PATHS) if hostile or rng.chance(0.2) else rng.pick(PATHS[:2])
             if hostile and rng.chance(0.3): path = b"/" + soup(rng, rng.randint(1, 6)).encode()
             hdrs = []
             for _ in range(rng.randint(0, 4)):
                 n = rng.pick(HNAMES) if hostile or rng.chance(0.3) else rng.pick(HNAMES[:4])
                 r = rng.random()
-                if n.lower() in (b"host", b":authority"): v = host if r < 0.5 else rng.pick(HOSTS)
+                if n.lower() in (b"host", b":authority"):
+                    v = host if r < 0.4 else (rng.pick(host_header_forms(rng.pick(NET_HOSTS), rng.pick([80, 443, 8080]))) if r < 0.8 else rng.pick(HOSTS))
                 elif n.lower() == b"content-type": v = rng.pick(CTYPES)
                 elif n.lower() == b"content-length": v = rng.pick([b"5", b"0", b"x"])
                 elif r < 0.5 and not hostile: v = rng.pick([b"qvalue", b"*/*", b"gzip, deflate", b"a=b; c=d"])
                 elif r < 0.95: v = soup(rng, rng.randint(0, 6)).encode()
                 else: v = rng.pick([b"\xff\xfe", b"caf\xe9", b"a\r\nInjected: yes"])
                 hdrs.append([hx(n), hx(v)])
+            port_ = rng.pick([80, 443, 22, 8080])
+            if net and rng.chance(0.6):
+                hdrs = [h for h in hdrs if unhx(h[0]).lower() not in (b"host", b":authority")]
+                src = rng.pick([host, host, rng.pick(NET_HOSTS)])
+                hdrs.append([hx(rng.pick([b"Host", b"host", b":authority"])), hx(rng.pick(host_header_forms(src, port_)))])
             r = rng.random()
             if r < 0.3: body = None
             elif r < 0.45: body = rng.pick([b"content", b"nobinarysupport", b"a=1&b=2", b'{"k": "v"}', b"50%", b"@/etc/hostname", b"line\n"])
@@ -155,10 +172,10 @@ class Check(PropertyCheck):
             else: body = rng.pick(["é".encode("latin-1"), "hé".encode("utf-16"), b"\xff\xfe", "日本".encode("utf-8")])
             if body is not None and b"\x00" in body: body = body.replace(b"\x00", b"0")
             case = {"method_hex": hx(method), "scheme": rng.pick(["http", "https"]), "host_hex": hx(host),
-                   "port": rng.pick([80, 443, 22, 8080]), "path_hex": hx(path), "headers": hdrs,
+                   "port": port_, "path_hex": hx(path), "headers": hdrs,
                    "content_hex": None if body is None else hx(body),
                    "version": rng.pick(["HTTP/1.1", "HTTP/1.1", "HTTP/1.0", "HTTP/2.0"]),
-                   "authority": int(rng.chance(0.2)),
+                   "authority": int(rng.chance(0.3 if net else 0.2)),
                    "preserve": int(rng.chance(0.4)), "peer": rng.pick([None, "1.2.3.4", "::1", "address", "example.com"]),
                    "set_content": int(rng.chance(0.85)), "exe": int(rng.chance(0.1)),
                    "order": rng.pick(self.ORDERS)}
@@ -205,7 +222,7 @@ class Check(PropertyCheck):
         content = None if case["content_hex"] is None else unhx(case["content_hex"])
         for b in [unhx(case["method_hex"]), host, unhx(case["path_hex"]), content or b""] + [x for h in hdrs for x in h]:
             if b"\x00" in b: raise Skip()
-        authority = (host + b":%d" % case["port"]) if case["authority"] else b""
+        authority = ((b"[" + host + b"]" if b":" in host else host) + b":%d" % case["port"]) if case["authority"] else b""
         req = http.Request(host.decode("utf-8", "surrogateescape"), case["port"], unhx(case["method_hex"]), case["scheme"].encode(),
                            authority, unhx(case["path_hex"]), case["version"].encode(), http.Headers(hdrs),
                            b"" if content is None else content, None, 946681200, 946681201)
@@ -416,6 +433,55 @@ class Check(PropertyCheck):
         return hs
 
     @staticmethod
+    def _dial(url):
+        """(host, port) a URL-taking client (curl, httpie) connects to for this URL argument, by RFC 3986 authority syntax;
+        None when the authority cannot be read that way (e.g. an IPv6 literal without brackets)"""
+        if b"://" not in url: return None
+        scheme, rest = url.split(b"://", 1)
+        auth = rest
+        for sep in (b"/", b"?", b"#"):
+            auth = auth.split(sep, 1)[0]
+        auth = auth.rsplit(b"@", 1)[-1]
+        default = {b"http": 80, b"https": 443}.get(scheme.lower())
+        if auth.startswith(b"["):
+            if b"]" not in auth: return None
+            host, tail = auth[1:].split(b"]", 1)
+            if tail == b"": return (host.lower(), default)
+            if tail.startswith(b":") and tail[1:].isdigit(): return (host.lower(), int(tail[1:]))
+            return None
+        if auth.count(b":") > 1: return None             # bare IPv6: host and port cannot be told apart
+        if b":" in auth:
+            host, p = auth.split(b":")
+            return (host.lower(), int(p)) if p.isdigit() else None
+        return (auth.lower(), default)
+
+    @staticmethod
+    def _norm_host(h):
+        h = h.lower()
+        if any(c >= 0x80 for c in h):
+            try: return h.decode("utf-8").encode("idna").lower()
+            except (UnicodeError, ValueError): return h
+        return h
+
+    def _dial_ok(self, case, d):
+        return d is not None and (self._norm_host(d[0]), d[1]) in {(self._norm_host(h), p) for h, p in self._dial_targets(case)}
+
+    def _dial_targets(self, case):
+        """acceptable (host, port) pairs, from the case alone: the connection target (request.host, request.port) or what a
+        Host header / :authority line names (its port, else the scheme's default - pretty_url's reading)"""
+        default = {"http": 80, "https": 443}[case["scheme"]]
+        out = {(unhx(case["host_hex"]).lower(), case["port"])}
+        for n, v in case["headers"]:
+            if unhx(n).lower() in (b"host", b":authority"):
+                hv = unhx(v)
+                if hv.count(b":") > 1 and not hv.startswith(b"["):
+                    out.add((hv.lower(), default))          # a bare IPv6 literal as Host value: the whole value is the host
+                    continue
+                d = self._dial(b"http://" + hv + b"/")
+                if d: out.add((d[0], d[1] if hv.rstrip(b"0123456789").endswith(b":") else default))
+        return out
+
+    @staticmethod
     def _curl_semantics(argv):
         """curl's reading of its command line (the options the exporter may use)"""
         out = {"method": None, "H": [], "compressed": False, "resolve": [], "data": None, "urls": [], "unknown": []}
@@ -436,6 +502,29 @@ class Check(PropertyCheck):
             i += 1
         out["eff_method"] = out["method"] if out["method"] is not None else (b"POST" if out["data"] is not None else b"GET")
         return out
+
+    @staticmethod
+    def _plain_host(case):
+        """the dial clause applies when the host is something a URL authority can carry (no '/', '?', '#', '@', brackets,
+        whitespace in it) and the request is not in authority form"""
+        h = unhx(case["host_hex"])
+        pth = unhx(case["path_hex"])
+        # exactly one source per kind: several Host / :authority lines make the request itself ambiguous
+        names = [unhx(n).lower() for n, v in case["headers"]]
+        if names.count(b"host") > 1 or names.count(b":authority") > 1: return False
+        import re as _re
+        for v in [h] + [unhx(v) for n, v in case["headers"] if unhx(n).lower() in (b"host", b":authority")]:
+            if not _re.fullmatch(rb"[A-Za-z0-9._~:\[\]\x80-\xff-]+", v): return False     # not a host a URL authority can carry
+            try:                                   # a host that is not a valid (IDN) name is outside what a URL can carry
+                v.decode("utf-8").encode("idna") if any(c >= 0x80 for c in v) else v.split(b":")[0].strip(b"[]").decode("idna")
+            except (UnicodeError, ValueError):
+                return False
+        if b":" in h:
+            import ipaddress
+            try: ipaddress.IPv6Address(h.decode("ascii"))
+            except ValueError: return False
+        return bool(h) and not any(c in h for c in b"/?#@[] \t\r\n") and unhx(case["method_hex"]).upper() != b"CONNECT" \
+            and (pth == b"" or pth == b"*" or pth.startswith(b"/"))      # else the path text runs into the authority
 
     def _text_body(self, case, obs):
         """the body as valid text whose UTF-8 form is the content itself (else None)"""
@@ -494,6 +583,10 @@ class Check(PropertyCheck):
                     if c["unknown"]: fails.append(f"{tag}: curl would read {c['unknown'][0]!r} as an option")
                     if c["eff_method"] != method: fails.append(f"{tag}: method sent by curl is {c['eff_method']!r}, request has {method!r}")
                     if len(c["urls"]) != 1 or c["urls"][0] not in urls: fails.append(f"{tag}: url arguments {c['urls']!r} != one of {urls!r}")
+                    elif self._plain_host(case):
+                        d = self._dial(c["urls"][0])
+                        if not self._dial_ok(case, d):
+                            fails.append(f"{tag}: url {c['urls'][0]!r} makes curl dial {d!r}, the request goes to one of {sorted(self._dial_targets(case))!r}")
                     want_H = [k + b": " + v for k, v in exp_h if k.lower() != b"accept-encoding"]
                     if method != b"GET" and not has_content: want_H.append(b"content-length: 0")
                     if c["H"] != want_H: fails.append(f"{tag}: -H lines {c['H']!r} != {want_H!r}")
@@ -514,6 +607,10 @@ class Check(PropertyCheck):
                 else:
                     want = [prog, method, argv[2] if len(argv) > 2 and argv[2] in urls else urls[0]] + [k + b": " + v for k, v in exp_h]
                     if argv != want: fails.append(f"{tag}: argv {argv[1:]!r} != {want[1:]!r}")
+                    elif self._plain_host(case):
+                        d = self._dial(argv[2])
+                        if not self._dial_ok(case, d):
+                            fails.append(f"{tag}: url {argv[2]!r} makes httpie dial {d!r}, the request goes to one of {sorted(self._dial_targets(case))!r}")
         # raw export
         if "raw_hex" in obs and self._wire_safe(case, obs):
             if obs["raw_hex"].startswith("error"):
